@@ -63,6 +63,24 @@ pub fn cases(ctx: &Ctx, section: &str, unit: u64) -> Vec<Case> {
                 match section {
                     "locs" => {
                         let g = w3::generate(&mut rng.sub("graph"), mode, Form::Pre);
+                        if rng.chance(1, 10) {
+                            // a byte order mark in front of one of the pasted files: whether the
+                            // file is rejected (at 1:1) or accepted, positions count from the
+                            // bytes the handler returned
+                            let base = model::run(&g.fs, &[], &g.entry, &g.defines);
+                            if matches!(base.verdict, Verdict::Ok(_)) && !base.pasted.is_empty() {
+                                let f = rng.sub("bom").pick(&base.pasted).clone();
+                                out.push(graph_case(
+                                    "diag-bom",
+                                    format!("W3:bom#{i}"),
+                                    &g,
+                                    vec![Fault::new(FaultKind::Bom, Sel::File(f))],
+                                    Api::Preprocess,
+                                    &mut rng,
+                                ));
+                                continue;
+                            }
+                        }
                         let faults = if rng.chance(1, 4) {
                             vec![Fault::new(FaultKind::Crlf, Sel::All)]
                         } else {
@@ -177,7 +195,13 @@ pub fn cases(ctx: &Ctx, section: &str, unit: u64) -> Vec<Case> {
                                     .collect();
                                 // an error gadget right after a declaration that is emitted once:
                                 // the diagnostic belongs to the last zz_err_ token of the gadget
-                                let gadget: Vec<String> = match pr.below(12) {
+                                let gadget: Vec<String> = match pr.below(24) {
+                                    12.. => {
+                                        let n = pr.below(CALIBRATED.len() as u64) as usize;
+                                        let mut v = vec![format!("{indent}static const int zz_cal_{n} = 0 ;")];
+                                        v.extend(CALIBRATED[n].split('\n').map(|l| l.to_string()));
+                                        v
+                                    }
                                     11 => vec![
                                         "int zz_err_ovl ( int zz_x ) { return 0 ; }".into(),
                                         "// between the candidates".into(),
@@ -364,7 +388,7 @@ pub fn cases(ctx: &Ctx, section: &str, unit: u64) -> Vec<Case> {
                     execs: vec![ExecSpec::single(key(&mut rng), STACK_MAIN, sc.task.clone())],
                     params: Json::obj()
                         .with("file_index", Json::u(rng.below(1000)))
-                        .with("gadget", Json::u(rng.below(10)))
+                        .with("gadget", Json::u(rng.below(20)))
                         .with("variant_seed", Json::u(rng.next_u64() >> 12)),
                 });
             }
@@ -386,6 +410,79 @@ pub fn cases(ctx: &Ctx, section: &str, unit: u64) -> Vec<Case> {
         _ => {}
     }
     out
+}
+
+/// Error gadgets whose position the oracle does not know by construction: it *calibrates* - the
+/// gadget alone, as a one-file program, says on which of its lines and in which column the
+/// diagnostic belongs and what the message is; planted in a file of a graph or of a real shader
+/// tree the diagnostic must name that file, the corresponding line, the same column and carry the
+/// same message (and then move by exactly k lines). One entry per kind of typer error that a few
+/// lines can provoke. All names start with zz_.
+pub const CALIBRATED: &[&str] = &[
+    "struct zz_SA { float3 zz_n ; } ;\nstruct zz_SB { float3 zz_n ; } ;\nfloat3 zz_fn4 ( zz_SA zz_s ) {\n  return zz_s . zz_SB :: zz_n ;\n}",
+    "static const int zz_c1 = zz_NS :: zz_x ;",
+    "void zz_f ( ) {\n  int zz_a = 1 ;\n  zz_a . zz_m = 2 ;\n}",
+    "void zz_f ( ) {\n  float4 zz_v = float4 ( 0 , 0 , 0 , 0 ) ;\n  zz_v . zz_q = 1 ;\n}",
+    "void zz_f ( ) {\n  int zz_a = 1 ;\n  zz_a [ 0 ] = 2 ;\n}",
+    "void zz_f ( ) {\n  int zz_a = 1 ;\n  zz_a ( 3 ) ;\n}",
+    "void zz_f ( ) {\n  float2 zz_v = float2 ( 1 , 2 , 3 ) ;\n}",
+    "struct zz_S { int zz_m ; } ;\nvoid zz_f ( ) {\n  zz_S zz_s ;\n  int zz_a = - zz_s ;\n}",
+    "struct zz_S { int zz_m ; } ;\nvoid zz_f ( ) {\n  zz_S zz_s ;\n  int zz_a = zz_s + 1 ;\n}",
+    "struct zz_S { int zz_m ; } ;\nvoid zz_f ( ) {\n  zz_S zz_s ;\n  int zz_a = zz_s ? 1 : 2 ;\n}",
+    "struct zz_S { int zz_m ; } ;\nvoid zz_f ( ) {\n  zz_S zz_s ;\n  int zz_a = true ? zz_s : 1 ;\n}",
+    "struct zz_S { int zz_m ; } ;\nvoid zz_f ( ) {\n  zz_S zz_s ;\n  int zz_a = zz_s ;\n}",
+    "static const int zz_arr [ 2 ] = { 1 , 2 , 3 } ;",
+    "struct zz_S { int zz_m ; } ;\nint zz_f2 ( ) {\n  zz_S zz_s ;\n  return zz_s ;\n}",
+    "void zz_f ( ) {\n  const int zz_a = 1 ;\n  zz_a = 2 ;\n}",
+    "void zz_f ( ) {\n  1 = 2 ;\n}",
+    "void zz_f ( ) {\n  int zz_n = 2 ;\n  int zz_a [ zz_n ] ;\n}",
+    "static int zz_a [ 0 ] ;",
+    "static int * zz_p ;",
+    "void zz_f ( ) {\n  [ zz_unknown_attr ]\n  for ( int zz_i = 0 ; zz_i < 2 ; ++ zz_i ) { }\n}",
+    "[ zz_unknown_fattr ]\nvoid zz_f ( ) { }",
+    "void zz_f ( ) {\n  float zz_x = 1 ;\n  zz_x = zz_x % true . zz_q ;\n}",
+    "struct zz_S { int zz_m ; } ;\nvoid zz_f ( ) {\n  zz_S zz_s ;\n  zz_s . zz_nope = 1 ;\n}",
+    "void zz_f ( ) {\n  float zz_x = sizeof ( 1 ) ;\n}",
+    "Texture2D zz_t : register ( u0 ) ;",
+    "static int zz_r : register ( t0 ) ;",
+    "void zz_f ( int zz_p : register ( t0 ) ) { }",
+    "struct zz_S ;\nstatic zz_S zz_v ;",
+    "void zz_f ( ) {\n  int zz_a = 1 ;\n  int zz_b = zz_a . x . y . zz_w ;\n}",
+    "enum zz_E { zz_E0 = 1.5 } ;",
+    "void zz_f ( ) {\n  int zz_a = 1 ;\n  zz_a = zz_undefined_fn ( zz_a ) ;\n}",
+    "int zz_h ( int zz_a ) { return zz_a ; }\nvoid zz_f ( ) {\n  zz_h ( zz_h ) ;\n}",
+    "void zz_f ( ) {\n  float3 zz_v = { 1 , 2 } ;\n}",
+    "void zz_f ( ) {\n  int zz_a = 1 ;\n  ! zz_f ;\n}",
+    "template < typename zz_T >\nzz_T zz_id ( zz_T zz_x ) { return zz_x ; }\nvoid zz_f ( ) {\n  zz_id < zz_Missing > ( 1 ) ;\n}",
+    "void zz_f ( ) {\n  int zz_a = 1 ;\n  switch ( zz_a ) { case zz_a : break ; }\n}",
+    "namespace zz_N { int zz_v ( ) { return 1 ; } }\nstatic const int zz_c = zz_N :: zz_missing ( ) ;",
+    "cbuffer zz_CB { int zz_m ; }\ncbuffer zz_CB { int zz_m2 ; }",
+    "struct zz_S { int zz_m ; } ;\nstruct zz_S { float zz_m ; } ;",
+    "typedef int zz_T ;\ntypedef float zz_T ;",
+    "void zz_f ( ) {\n  string zz_s ;\n}",
+    "void zz_f ( ) {\n  groupshared int zz_g ;\n  return 1 ;\n}",
+];
+
+/// What the gadget alone says: (line within the gadget text, column, first line of the message)
+fn calibrate(task: &crate::exec::TaskSpec, text: &str, rep: &mut Report) -> Option<(u32, u32, String)> {
+    let fs = crate::plan::snippet_fs(text);
+    let mut t = task.clone();
+    t.fs = 0;
+    t.entry = "test.rssl".into();
+    t.faults.clear();
+    t.defines.clear();
+    let ex = ExecSpec::single((11, 13), STACK_MAIN, t);
+    let res = crate::exec::run_exec(&ex, std::slice::from_ref(&fs));
+    let r = &res.results[0][0];
+    rep.absorb_task(r);
+    if r.kind != OutcomeKind::Err {
+        return None;
+    }
+    let d = parse_diag(&r.text)?;
+    if d.file != "test.rssl" {
+        return None;
+    }
+    Some((d.line, d.col, d.rest.lines().next().unwrap_or("").to_string()))
 }
 
 fn atom_name(t: &model::Tok) -> &str {
@@ -627,6 +724,66 @@ pub fn judge(case: &Case, rep: &mut Report) {
                 ));
             }
         }
+        "diag-bom" => {
+            let r = run_single(case, ex, rep);
+            if r.kind == OutcomeKind::Panic {
+                rep.findings.push(finding("panic", &r.panic_site, format!("{}: {}", case.label, r.text)));
+                return;
+            }
+            let Some(f) = task.faults.iter().find_map(|x| match &x.sel {
+                Sel::File(f) if x.kind == FaultKind::Bom => Some(f.clone()),
+                _ => None,
+            }) else {
+                return;
+            };
+            let m = model::run(&case.fss[task.fs], &[], &task.entry, &task.defines);
+            let Verdict::Ok(toks) = &m.verdict else {
+                return;
+            };
+            rep.count("byte_order_marks_planted", 1);
+            rep.nontrivial.insert(digest);
+            if r.kind == OutcomeKind::Err {
+                match parse_diag(&r.text) {
+                    Some(d) if d.file == f && d.line == 1 && d.col == 1 => {}
+                    other => rep.findings.push(finding(
+                        "diagnostic-position",
+                        "byte-order-mark",
+                        format!(
+                            "{}: {f} starts with a byte order mark; the rejection should name {f}:1:1, got {:?}",
+                            case.label,
+                            other
+                                .map(|d| format!("{}:{}:{}", d.file, d.line, d.col))
+                                .unwrap_or_else(|| r.text.lines().take(2).collect::<Vec<_>>().join(" | "))
+                        ),
+                    )),
+                }
+                return;
+            }
+            // accepted: every token outside the first line of that file is where it was written
+            let got: Vec<&str> = r.aux.lines().collect();
+            if got.len() != toks.len() {
+                rep.count("bom_accepted_token_count_differs_not_judged", 1);
+                return;
+            }
+            for (t, g) in toks.iter().zip(got) {
+                if t.file == f && t.line == 1 {
+                    continue;
+                }
+                if t.loc() != g {
+                    rep.findings.push(finding(
+                        "token-location",
+                        "location-differs",
+                        format!(
+                            "{}: {f} starts with a byte order mark and is accepted; token {} written at {} is located at {g}",
+                            case.label,
+                            t.render(),
+                            t.loc()
+                        ),
+                    ));
+                    return;
+                }
+            }
+        }
         "diag-fail" | "diag-type" => {
             let r = run_single(case, ex, rep);
             if r.kind == OutcomeKind::Panic {
@@ -638,7 +795,8 @@ pub fn judge(case: &Case, rep: &mut Report) {
             let mut construct_line: Option<u32> = None;
             let mut expected_col: Option<u32> = None;
             let mut expected_notes: Option<Vec<(String, u32, u32)>> = None;
-            let (file, line, what): (String, u32, String) = match &m.verdict {
+            let mut expected_msg: Option<String> = None;
+            let (file, line, what): (String, u32, String) = 'position: { match &m.verdict {
                 Verdict::Fail(f) => match (&f.kind, &f.at) {
                     // (a failing #if condition is reported where its first token was written, which may
                     // be a macro body in another file: not a position the simulator planted)
@@ -675,6 +833,29 @@ pub fn judge(case: &Case, rep: &mut Report) {
                         && toks[end].line <= gl + 6
                     {
                         end += 1;
+                    }
+                    if let Some(n) = atom_name(&toks[first])
+                        .strip_prefix("zz_cal_")
+                        .and_then(|n| n.parse::<usize>().ok())
+                        .filter(|n| *n < CALIBRATED.len())
+                    {
+                        let lines = 1 + CALIBRATED[n].split('\n').count();
+                        let text: String = case.fss[task.fs].files.get(&gf).map(|c| {
+                            c.split('\n')
+                                .skip(gl as usize - 1)
+                                .take(lines)
+                                .collect::<Vec<_>>()
+                                .join("\n")
+                        }).unwrap_or_default();
+                        let Some((l0, c0, msg0)) = calibrate(task, &format!("{text}\n"), rep) else {
+                            rep.count("calibrated_gadget_not_judged_no_located_error_alone", 1);
+                            return;
+                        };
+                        rep.count("calibrated_gadgets_planted", 1);
+                        construct_line = Some(gl);
+                        expected_col = Some(c0);
+                        expected_msg = Some(msg0);
+                        break 'position (gf, gl + l0 - 1, format!("calibrated gadget {n}"));
                     }
                     let Some(t) = toks[start..end]
                         .iter()
@@ -728,7 +909,7 @@ pub fn judge(case: &Case, rep: &mut Report) {
                     rep.count("fail_not_judged_model_ok_or_unmodelled", 1);
                     return;
                 }
-            };
+            } };
             if r.kind != OutcomeKind::Err {
                 // C12's business; here there is no diagnostic to judge
                 rep.count("fail_not_judged_impl_ok", 1);
@@ -753,7 +934,11 @@ pub fn judge(case: &Case, rep: &mut Report) {
                 ));
                 return;
             };
-            if d.file != file || d.line != line || expected_col.is_some_and(|c| c != d.col) {
+            if d.file != file
+                || d.line != line
+                || expected_col.is_some_and(|c| c != d.col)
+                || expected_msg.as_deref().is_some_and(|m| Some(m) != d.rest.lines().next())
+            {
                 rep.findings.push(finding(
                     "diagnostic-position",
                     "wrong-file-or-line",
@@ -965,7 +1150,20 @@ pub fn judge(case: &Case, rep: &mut Report) {
                 }
                 return;
             }
+            let mut want_msg: Option<String> = None;
+            let cal_text;
             let (gadget, err_line, err_col): (&str, u32, u32) = match case.params.gu("gadget") {
+                10.. => {
+                    let n = (case.params.gu("variant_seed") % CALIBRATED.len() as u64) as usize;
+                    cal_text = format!("static const int zz_cal_{n} = 0 ;\n{}", CALIBRATED[n]);
+                    let Some((l0, c0, msg0)) = calibrate(task, &format!("{cal_text}\n"), rep) else {
+                        rep.count("calibrated_gadget_not_judged_no_located_error_alone", 1);
+                        return;
+                    };
+                    rep.count("corpus_calibrated_gadgets_planted", 1);
+                    want_msg = Some(msg0);
+                    (cal_text.as_str(), l0 - 1, c0)
+                }
                 6 => ("static const int zz_p1 = 1 zz_err_extra_token ;", 0, 28),
                 7 => ("static const int zz_p2 =\n  ( 1 + 2 zz_err_unclosed ;", 1, 11),
                 8 => ("void zz_fn3 ( ) {\n if ( 1 zz_err_in_condition ) { }\n}", 1, 9),
@@ -989,7 +1187,12 @@ pub fn judge(case: &Case, rep: &mut Report) {
             rep.count("corpus_gadgets_planted", 1);
             let want_line = first_line + err_line;
             match parse_diag(&r.text) {
-                Some(d) if d.file == f && d.line == want_line && d.col == err_col => {
+                Some(d)
+                    if d.file == f
+                        && d.line == want_line
+                        && d.col == err_col
+                        && want_msg.as_deref().is_none_or(|m| Some(m) == d.rest.lines().next()) =>
+                {
                     if fi > 0 {
                         rep.nontrivial.insert(digest);
                     }
